@@ -294,6 +294,22 @@ func ruleTempNotLive(c *Ctx, r *Rule) {
 				_, pf, _, isField := loadedField(p)
 				r.Ob(!(isField && okDst && pf == dstField), c.fnName(g)+"|opens-temp", ci.Pos(), "the file opened for writing is not the live offsets file: "+c.path(p))
 				same := sameExpr(p, src)
+				if pp, isParam := p.(*ssa.Parameter); !same && isParam && g != fn {
+					// the helper receives the path: it is the rename source at every call in the saving function
+					k := paramIndex(g, pp)
+					nSites := 0
+					same = true
+					for _, cs := range c.sitesOf(g) {
+						if cs.Parent() != fn {
+							continue
+						}
+						nSites++
+						if k < 0 || k >= len(cs.Common().Args) || !(cs.Common().Args[k] == src || sameExpr(cs.Common().Args[k], src)) {
+							same = false
+						}
+					}
+					same = same && nSites > 0
+				}
 				if !same && g != fn {
 					// helper: same static callee applied to the helper's receiver, which the call site binds to the caller's
 					pc, ok1 := stripConv(p).(*ssa.Call)
@@ -397,12 +413,15 @@ func ruleSnapshotUnderLock(c *Ctx, r *Rule) {
 	n := 0
 	for _, f := range []string{"offsets", "filename"} {
 		for _, a := range c.fieldAccesses(fileInPkg, "Job", f) {
-			if a.fn != saver {
+			if !nestedIn(a.fn, saver) {
 				continue
 			}
 			n++
 			root := refOf(a.base).root
-			_, held := flow.at(a.in)[lockRef{root, ".mu"}.key()]
+			_, held := c.flowMust(a.fn).at(a.in)[lockRef{root, ".mu"}.key()]
+			if !held && a.fn != saver {
+				held, _ = c.heldInterproc(a.in, lockRef{root, ".mu"}, 2) // inside a function literal of the saver
+			}
 			r.Ob(held, fmt.Sprintf("%s|Job.%s#%d", c.fnName(saver), f, n), a.in.Pos(), "the snapshot reads Job."+f+" with that job's lock held (so it sees offsets that were committed, never a torn update)")
 		}
 	}
@@ -451,6 +470,17 @@ func ruleTokenAgreement(c *Ctx, r *Rule) {
 			}
 		}
 	}
+	for _, lit := range allAnon(saver) { // function literals of the saver write for it
+		for _, b := range lit.Blocks {
+			for _, in := range b.Instrs {
+				if call, ok := isBuiltinCall(in, "append"); ok && len(call.Call.Args) == 2 {
+					if s, ok := constString(call.Call.Args[1]); ok {
+						wt = append(wt, tok{call.Pos(), s})
+					}
+				}
+			}
+		}
+	}
 	sort.Slice(wt, func(i, j int) bool { return wt[i].pos < wt[j].pos })
 	// reader tokens: const string args of calls inside the file package's parse functions
 	var rt []tok
@@ -474,6 +504,12 @@ func ruleTokenAgreement(c *Ctx, r *Rule) {
 					if cf != nil && qualName(cf) == "strings.LastIndexByte" {
 						if k, ok := constInt(x.Call.Args[1]); ok {
 							sepChar = k
+						}
+					}
+					// the other spelling of the indent test: strings.HasPrefix / CutPrefix(line, "    ")
+					if cf != nil && (qualName(cf) == "strings.HasPrefix" || qualName(cf) == "strings.CutPrefix") && len(x.Call.Args) == 2 {
+						if s, ok := constString(x.Call.Args[1]); ok && strings.TrimSpace(s) == "" && len(s) > 0 {
+							indent, indentLen = s, int64(len(s))
 						}
 					}
 				case *ssa.BinOp:
@@ -611,6 +647,26 @@ func isResultCell(fn *ssa.Function, al *ssa.Alloc) bool {
 			if u, ok := in.(*ssa.UnOp); ok && u.X == ssa.Value(al) {
 				return true
 			}
+		}
+	}
+	return false
+}
+
+// allAnon: the function literals nested (at any depth) in fn.
+func allAnon(fn *ssa.Function) []*ssa.Function {
+	var out []*ssa.Function
+	for _, a := range fn.AnonFuncs {
+		out = append(out, a)
+		out = append(out, allAnon(a)...)
+	}
+	return out
+}
+
+// nestedIn: f is fn or a function literal inside it.
+func nestedIn(f, fn *ssa.Function) bool {
+	for ; f != nil; f = f.Parent() {
+		if f == fn {
+			return true
 		}
 	}
 	return false
